@@ -47,6 +47,7 @@ def run(ctx):
         # "never turn a solvable problem into an error": a soft requirement may name a solvable whose package no requirement
         # ever asked for, so the id-indexed tables are not sized for it - every index into them is guarded (rule of C04)
         ctx.guard("guarded-index" + tag, c04.guarded_index, ctx, crate, crs, tag)
+        ctx.guard("conflict-signal" + tag, c02.conflict_signal, ctx, crate, crs, tag)
 
 
 def starting_level_local(b):
